@@ -94,10 +94,16 @@ func ChildMain(ch *Check, tier string, seed int64, race bool, from, to int, only
 	if to < 0 || to > len(scs) {
 		to = len(scs)
 	}
+	childHits := int64(0)
 	for i := from; i < to; i++ {
 		sc := scs[i]
 		if only != "" && sc.ID != only {
 			continue
+		}
+		// a batch that has already produced 4 violation witnesses stops early (a broken tree makes many scenarios wait
+		// for their stuck detectors; the verdict is settled) - except for checks that want every scenario's own verdict
+		if childHits >= 4 && !ch.NoEarlyExit {
+			break
 		}
 		w(childLine{T: "begin", I: i, ID: sc.ID, Class: sc.Class})
 		sctx := NewCtx(ch.ID, tier, seed)
@@ -106,6 +112,7 @@ func ChildMain(ch *Check, tier string, seed int64, race bool, from, to int, only
 			sctx.Violationf("panic:"+sc.Class+":"+NormalizePanic(fmt.Sprint(pv))+"@"+where, map[string]any{"scenario": sc.ID},
 				"panic in the calling goroutine during scenario %s: %v at %s", sc.ID, pv, where)
 		}
+		childHits += sctx.ViolationHits()
 		w(childLine{T: "end", I: i, ID: sc.ID, Delta: sctx.Export()})
 	}
 	return 0
